@@ -9,7 +9,9 @@ CONSTANTS
   Targets = {3}
   Corruptions <- NoCorruption
   NT = 2
-  FollowRetries = FALSE
+  FollowRetries = TRUE
+  FollowAppend = TRUE
+  ResyncChecksRound = TRUE
   MaxAgg = 1
   QCap = 2
   Linger = TRUE
